@@ -41,9 +41,13 @@ def run_cases(chk, plan, label, crlf_ok=True):
             crlf = False
         # attribute values holding comment-marker characters of every family must come back as written
         extra = {1: " c='#1 //2 ## 3'"} if (variant % 5 == 0 and not bare and ext not in ("md", "markdown")) else None
+        # a quoted attribute value continuing on the next comment line; a file without a final line terminator
+        ml = variant % 11 == 7 and not bare
         r = langs.render(case["items"], ext, variant, crlf=crlf, multibyte=mb, bare=bare,
-                         endsp=(variant // 3) if variant % 3 == 0 else None, container=container, tag_attrs=extra)
+                         endsp=(variant // 3) if variant % 3 == 0 else None, container=container, tag_attrs=extra,
+                         mlattr=ml, no_eol=(variant % 9 == 5))
         r["extra"] = extra
+        r["ml"] = ml
         cid = "%s%d" % (label, i)
         batch.append({"id": cid, "files": {r["name"]: r["text"]}, "diff": None, "args": ["list"], "terminal": True})
         meta[cid] = (case, ext, variant, r, crlf, mb, bare)
@@ -85,6 +89,11 @@ def run_cases(chk, plan, label, crlf_ok=True):
             want_attrs = {} if bare else {"name": b["name"]}
             if r.get("extra") and b["name"] == "n1":
                 want_attrs["c"] = "#1 //2 ## 3"
+            if r.get("ml"):
+                # the value keeps what the comment holds between the quotes (continuation prefix included: gray)
+                mlv = b["attributes"].pop("ml", None)
+                if mlv is None or not (mlv.startswith("two") and mlv.endswith("lines")):
+                    chk.violation("%s: two-line attribute value came back as %r" % (ext, mlv), detail)
             if b["attributes"] != want_attrs:
                 chk.violation("%s: attributes %s for block %s" % (ext, b["attributes"], b["name"]), detail)
         # content bytes from the block hook events (tag line -> content range)
